@@ -235,8 +235,11 @@ impl Expression for Op {
 
             Or => {
                 if lhs_def.is_null() || lhs_value == Some(Value::Boolean(false)) {
-                    // lhs is always "false"
-                    self.rhs.apply_type_info(&mut state)
+                    // lhs is always "false": the result is the rhs, but the lhs still runs
+                    let lhs_fallible = lhs_def.is_fallible();
+                    let rhs_def = self.rhs.apply_type_info(&mut state);
+                    let fallible = lhs_fallible || rhs_def.is_fallible();
+                    rhs_def.maybe_fallible(fallible)
                 } else if !(lhs_def.contains_null() || lhs_def.contains_boolean())
                     || lhs_value == Some(Value::Boolean(true))
                 {
@@ -258,12 +261,14 @@ impl Expression for Op {
 
             And => {
                 if lhs_def.is_null() || lhs_value == Some(Value::Boolean(false)) {
-                    // lhs is always "false"
-                    TypeDef::boolean()
+                    // lhs is always "false", but it still runs
+                    TypeDef::boolean().maybe_fallible(lhs_def.is_fallible())
                 } else if lhs_value == Some(Value::Boolean(true)) {
                     // lhs is always "true"
-                    // keep the fallibility of RHS, but change it to a boolean
-                    self.rhs.apply_type_info(&mut state).with_kind(K::boolean())
+                    // keep the fallibility of both operands, but change it to a boolean
+                    let rhs_def = self.rhs.apply_type_info(&mut state);
+                    let fallible = lhs_def.is_fallible() || rhs_def.is_fallible();
+                    rhs_def.with_kind(K::boolean()).maybe_fallible(fallible)
                 } else {
                     // unknown if lhs is true or false
                     lhs_def
@@ -314,8 +319,11 @@ impl Expression for Op {
                 // Division is infallible if the rhs is a literal normal float or integer.
                 match self.rhs.resolve_constant(&state) {
                     Some(value) if lhs_def.is_float() || lhs_def.is_integer() => match value {
-                        Value::Float(v) if v.is_normal() => td.infallible(),
-                        Value::Integer(v) if v != 0 => td.infallible(),
+                        // the division itself cannot fail, the lhs still can
+                        Value::Float(v) if v.is_normal() => {
+                            td.maybe_fallible(lhs_def.is_fallible())
+                        }
+                        Value::Integer(v) if v != 0 => td.maybe_fallible(lhs_def.is_fallible()),
                         _ => td.fallible(),
                     },
                     _ => td.fallible(),
